@@ -56,7 +56,9 @@ def build_atom(torch, name, D, pos, ctxf, seed):
     if name == "coupling":
         if D < 2:
             return None
-        return perturb(TR.AffineCouplingTransform([1, -1], lambda i, o: nets.ResidualNet(i, o, hidden_features=6, context_features=ctxf, num_blocks=1)), 0.3)
+        # every second one with an unconditional transform of the identity features (its log-det counts too)
+        ut = (lambda features: TR.PointwiseAffineTransform(shift=0.2, scale=1.6)) if (pos + seed) % 2 == 0 else None
+        return perturb(TR.AffineCouplingTransform([1, -1], lambda i, o: nets.ResidualNet(i, o, hidden_features=6, context_features=ctxf, num_blocks=1), unconditional_transform=ut), 0.3)
     if name == "autoregressive":
         return perturb(TR.MaskedAffineAutoregressiveTransform(D, 6, context_features=ctxf, num_blocks=1), 0.3)
     if name == "spline_tails":
@@ -337,6 +339,8 @@ def main(run, replay=None):
     d1 = onto + not_onto[:12]
     smooth = [s for s in onto if not ({str(a["name"]) for a in s["prog"]} & {"leakyrelu", "logtanh", "spline_tails", "spline_unit", "logit"})]
     d2 = rnd.sample(smooth, min(len(smooth), 150 if thorough else 10))
+    # the one-stage programs whose stages mix the two features are always integrated in two dimensions
+    d2 += [s for s in onto if len(s["prog"]) == 1 and str(s["prog"][0]["name"]) in ("coupling", "autoregressive", "linear") and s not in d2]
     extra = []
     if not thorough:
         # the squash -> unit spline -> logit pattern needs length 3
